@@ -24,6 +24,7 @@ func c07Alphabet(c Cfg) []Op {
 		{K: "batch", Sub: []Op{{K: "put", Key: "a", VC: "S"}, {K: "del", Key: "b"}}, Dev: true},
 		{K: "restart", Dev: true},
 		{K: "merge", Dev: true}, // an earlier, completed merge (adopted or not) in the history
+		{K: "gap", Dev: true},   // ... and one that left a gap in the data file ids (several files into fewer, adopted)
 	}
 }
 
